@@ -291,11 +291,38 @@ class Reporter:
         return 1 if self.violations else 0
 
 
+def gen_deps(pid):
+    """harness/tr module names of the generated files props/<pid>.v depends on (transitively
+    through model/ and proofs/), read off the Require lines."""
+    import re
+    index = {}
+    for d in ("gen", "model", "proofs", "props"):
+        dd = os.path.join(COQ, d)
+        if os.path.isdir(dd):
+            for f in os.listdir(dd):
+                if f.endswith(".v"):
+                    index[f[:-2]] = os.path.join(dd, f)
+    seen, todo, out = set(), [pid], set()
+    while todo:
+        m = todo.pop()
+        if m in seen or m not in index:
+            continue
+        seen.add(m)
+        if m.startswith("Gen") and os.path.dirname(index[m]).endswith("gen"):
+            out.add(m[3:].lower())
+            continue
+        text = re.sub(r"\(\*.*?\*\)", " ", open(index[m]).read(), flags=re.S)
+        for stmt in re.findall(r"Require\s+(?:Import|Export)?\s*([^.]*(?:\.[A-Za-z_][^.]*)*)\.\s", text):
+            for w in stmt.split():
+                todo.append(w.split(".")[-1])
+    return sorted(out)
+
+
 def proof_stage(rep, pid, gen=(), extra_targets=()):
     """Translator + make + props re-check.  Fills rep.coverage proof keys.
     `gen` names the harness/tr modules whose generated files this property depends on.
     Returns dict(ok=..., stage=..., detail=...)."""
-    errs = translate(list(gen))
+    errs = translate(sorted(set(gen) | set(gen_deps(pid))))
     if errs:
         rep.coverage.update(obligations=1, discharged=0, checker_cmd="harness/tr (translator)",
                             trusted_base=list(TRUSTED_BASE))
